@@ -541,6 +541,27 @@ Proof.
   apply (cross_protocol u H1 H2 c sl sk Hc Hl Hk). unfold cross_guard. now rewrite G1, G2.
 Qed.
 
+Lemma desc_have_wire_true : desc_have_wire = true.
+Proof. vm_compute. reflexivity. Qed.
+
+(* the description clause in context: whatever reports went through the parser before, the bytes of
+   any encoding of a chord add exactly one event, and its key is described as the chord's own Key value *)
+Theorem description_after_history u : ascii_like u ->
+  forall (hist : list report) (c : chord) (s : kseq) (w : list Z),
+  Forall (fun r => report_ok r = true) hist ->
+  desc_chord c = true -> In s (all_encs c) -> guard_esc_upper_seq c s = false ->
+  kseq_wire s = Some w ->
+  let h := flat_map report_wire hist in
+  exists k,
+    run_events u pinit (h ++ w) = run_events u pinit h ++ [(s, k)] /\
+    key_string u k = key_string u (chord_key c).
+Proof.
+  intros H2 hist c s w Hh Hc Hs G W h.
+  exists (decode_key u s).
+  split; [apply key_after_history; [exact clean_pinit|exact Hh|exact W]|].
+  now apply description_of_encoding.
+Qed.
+
 (* ---------- statements over the decidable [clean_b] (props/C09.v) ---------- *)
 Lemma report_from_clean_b p r : clean_b p = true -> report_ok r = true ->
   exists p', feed p (report_wire r) = (p', report_items r, true) /\ clean_b p' = true.
